@@ -200,7 +200,8 @@ def head_gc_enumerate_form(run, b, sc, removes):
 
         def is_pos(x):
             x = strip(x)
-            return x[0] == "field" and str(x[2]) == "0" and any(y[0] == "call" and y[1].fn.endswith("::enumerate") for y in walk(x))
+            return x[0] == "field" and str(x[2]) == "0" and any(y[0] == "call" and y[1].fn.endswith("::enumerate") for y in walk(x)) \
+                and not any(y[0] in ("bin", "un", "cast") for y in walk(x))      # the position itself: no arithmetic on it
 
         def is_keep(x):
             x = strip(x)
